@@ -1,22 +1,28 @@
 #!/bin/bash
 # selftest.sh [seed ids...] : must-fail corpus. For every stored seed whose meta.json says it is detected (detected_by.exit == 1)
-# apply it to /repo, run the quick check of the property named in detected_by.check, expect exit 1 with a VIOLATION line,
-# undo. Seeds marked invalid/missed are skipped. Prints one line per seed and a summary; exit 1 if a detection was lost.
+# apply it to a scratch worktree of /repo's HEAD, run the quick check named in detected_by.check against that worktree (with a
+# scratch copy of /verif, so that /verif/evidence is not overwritten), expect exit 1 with a VIOLATION line. Seeds marked
+# invalid/missed are skipped. Prints one line per seed and a summary; exit 1 if a detection was lost.
 cd /verif
 ids="$@"; [ -z "$ids" ] && ids=$(ls seeded)
+wt=/tmp/selftest_wt; vf=/tmp/selftest_vf
+git -C /repo worktree remove --force $wt 2>/dev/null; rm -rf $vf
+git -C /repo worktree add -q --detach $wt HEAD || exit 2
+rsync -a --exclude .git --exclude replays --exclude seeded --exclude bin /verif/ $vf/
+trap 'git -C /repo worktree remove --force $wt >/dev/null 2>&1; rm -rf $vf' EXIT
 bad=0; n=0
 for id in $ids; do
   m=seeded/$id/meta.json
   ex=$(jq -r '.detected_by.exit // empty' $m 2>/dev/null)
   [ "$ex" = "1" ] || { echo "skip $id ($(jq -r '.status_on_current_tree // .detected_by.note // "no detection recorded"' $m | cut -c1-80))"; continue; }
   prop=$(jq -r '.detected_by.check' $m | grep -o 'C[0-9][0-9]' | head -1)
-  git -C /repo apply --check /verif/seeded/$id/patch.diff 2>/dev/null || { echo "STALE $id: patch does not apply"; bad=1; continue; }
-  git -C /repo apply /verif/seeded/$id/patch.diff
-  ./check $prop quick > /tmp/selftest.$id.log 2>&1; rc=$?
-  git -C /repo apply -R /verif/seeded/$id/patch.diff || echo "WARNING: could not undo $id"
+  git -C $wt apply --check /verif/seeded/$id/patch.diff 2>/dev/null || { echo "STALE $id: patch does not apply"; bad=1; continue; }
+  git -C $wt apply /verif/seeded/$id/patch.diff
+  FVC_REPO=$wt FVC_VERIF=$vf bin/fvc check $prop quick > /tmp/selftest.$id.log 2>&1; rc=$?
+  git -C $wt checkout -q -- . ; git -C $wt clean -fdq
   v=$(grep -c '^VIOLATION' /tmp/selftest.$id.log)
   n=$((n+1))
-  if [ $rc -eq 1 ] && [ $v -gt 0 ]; then echo "ok   $id $prop violations=$v"; else echo "LOST $id $prop rc=$rc violations=$v"; bad=1; fi
+  if [ $rc -eq 1 ] && [ $v -gt 0 ]; then echo "ok   $id $prop violations=$v $(grep -m1 -o 'obligation=[^ ]*' /tmp/selftest.$id.log | cut -c1-120) $(grep -c replayed-on-real-code /tmp/selftest.$id.log | sed 's/^/replayed=/')"; else echo "LOST $id $prop rc=$rc violations=$v"; bad=1; fi
 done
 echo "selftest: $n seeds run, lost=$bad"
 exit $bad
